@@ -582,6 +582,9 @@ pub fn exec(w: &mut World, op: &Op, env: &mut Env) {
     if crate::exec_conv::handles(rest) {
         return crate::exec_conv::exec(w, op, fam, rest, env);
     }
+    if crate::exec_third::handles(rest) {
+        return crate::exec_third::exec(w, op, fam, rest, env);
+    }
     match fam {
         "u" => crate::exec_int::exec_u(w, op, rest, env),
         "i" => crate::exec_int::exec_i(w, op, rest, env),
